@@ -8,7 +8,9 @@ Tie: the programs are regenerated from /repo's working tree by tracing (route T)
 implementation with the verified interval evaluator (translation validation).  A broken obligation triggers a
 scaling / Euler search on the public State API for a concrete failing state.
 """
+import math
 import os
+from fractions import Fraction
 import vplib as V
 
 PROP_FILES = [os.path.join(V.PROPS, "C02.v")]
@@ -25,6 +27,16 @@ def by_prog(tags, key):
     return d
 
 
+def iv_of(v):
+    """exact dyadic enclosure ('Some', (m_lo, e_lo, (m_hi, e_hi))) -> (lo, hi) widened outwards by one ulp; 'None' -> None"""
+    if not (isinstance(v, tuple) and v and v[0] == "Some"):
+        return None
+    ml, el, (mu, eu) = v[1]
+    lo = float(Fraction(ml) * Fraction(2) ** el)
+    hi = float(Fraction(mu) * Fraction(2) ** eu)
+    return (math.nextafter(lo, -math.inf), math.nextafter(hi, math.inf))
+
+
 def tv_compare(name, prog, tv):
     """translation validation: interval enclosures of the regenerated program vs the f64 implementation"""
     bad = []
@@ -33,14 +45,14 @@ def tv_compare(name, prog, tv):
         st = prog["tv_states"][si]
         if any(x is None for x in impl_row):
             # the implementation returns NaN at this state: the program must be undefined there too
-            if all(V.interval_of(e) is None for e, x in zip(encl_row, impl_row) if x is None):
+            if all(iv_of(e) is None for e, x in zip(encl_row, impl_row) if x is None):
                 continue
             bad.append({"config": name, "program": prog["name"], "state": st, "impl": "NaN", "model": "defined"})
             continue
         scale = sum(abs(x) for x in impl_row[:-1]) + 1e-300   # contributions are beta*A_k; the last output is T*sum
         for k, (e, x) in enumerate(zip(encl_row, impl_row)):
             n += 1
-            iv = V.interval_of(e)
+            iv = iv_of(e)
             if iv is None:
                 bad.append({"config": name, "program": prog["name"], "state": st, "output": k, "impl": x, "model": "NaI"})
                 continue
@@ -101,7 +113,7 @@ def run(ctx):
             eul = by_prog(tags, "EULER").get(pn)
             if isinstance(eul, list):
                 for si, pair_ in enumerate(eul):
-                    a, d = V.interval_of(pair_[0]), V.interval_of(pair_[1])
+                    a, d = iv_of(pair_[0]), iv_of(pair_[1])
                     if a is None or d is None:
                         continue
                     euler_n += 1
